@@ -44,6 +44,7 @@ type EnumCase struct {
 	Mask  int  // bit i = node i Async
 	Desc  bool // parameters in descending producer order
 	ErrMask int // bit i = node i fallible
+	FieldMask int // bit i = node i returns a struct that is expanded; its consumers take the field
 }
 
 // EnumCases lists all cases for n (both parameter orders when both is set).
@@ -70,13 +71,18 @@ func EnumSpec(name string, cases []EnumCase, r *rand.Rand, errP float64) *Spec {
 			maxN = c.N
 		}
 	}
-	// shared result types: node i -> *Ni
-	var tids []int
+	// shared result types: node i -> *Ni; and for expanded nodes: *Holder_i{ F_i Field_i }
+	var tids, hids, fids []int
 	for i := 0; i < maxN; i++ {
 		b := len(s.Types)
 		s.Types = append(s.Types, &Type{ID: b, Kind: KStruct, Name: fmt.Sprintf("Node%d", i), Base: -1})
 		s.Types = append(s.Types, &Type{ID: b + 1, Kind: KPtr, Base: b})
 		tids = append(tids, b+1)
+		s.Types = append(s.Types, &Type{ID: b + 2, Kind: KNamedInt, Name: fmt.Sprintf("Field%d", i), Base: -1})
+		s.Types = append(s.Types, &Type{ID: b + 3, Kind: KStruct, Name: fmt.Sprintf("Holder%d", i), Base: -1, Fields: []Field{{Name: fmt.Sprintf("F%d", i), T: b + 2}}})
+		s.Types = append(s.Types, &Type{ID: b + 4, Kind: KPtr, Base: b + 3})
+		fids = append(fids, b+2)
+		hids = append(hids, b+4)
 	}
 	for ci, c := range cases {
 		cons := dagConsumers(c.N, c.Shape)
@@ -89,8 +95,17 @@ func EnumSpec(name string, cases []EnumCase, r *rand.Rand, errP float64) *Spec {
 		}
 		base := len(s.Provs)
 		var items []Item
+		out := func(i int) int { // what consumers of node i take
+			if c.FieldMask&(1<<i) != 0 && i != c.N-1 {
+				return fids[i]
+			}
+			return tids[i]
+		}
 		for j := 0; j < c.N; j++ {
 			p := &Prov{ID: base + j, Kind: PFunc, Fn: fmt.Sprintf("E%dN%d", ci, j), Results: []int{tids[j]}}
+			if c.FieldMask&(1<<j) != 0 && j != c.N-1 {
+				p.Results = []int{hids[j]}
+			}
 			ps := append([]int{}, prods[j]...)
 			if c.Desc {
 				for a, b := 0, len(ps)-1; a < b; a, b = a+1, b-1 {
@@ -98,7 +113,7 @@ func EnumSpec(name string, cases []EnumCase, r *rand.Rand, errP float64) *Spec {
 				}
 			}
 			for _, i := range ps {
-				p.Params = append(p.Params, tids[i])
+				p.Params = append(p.Params, out(i))
 			}
 			p.Async = c.Mask&(1<<j) != 0
 			if c.ErrMask&(1<<j) != 0 || (errP > 0 && r.Float64() < errP) {
@@ -106,6 +121,13 @@ func EnumSpec(name string, cases []EnumCase, r *rand.Rand, errP float64) *Spec {
 			}
 			s.Provs = append(s.Provs, p)
 			items = append(items, Item{Prov: p.ID})
+		}
+		for j := 0; j < c.N-1; j++ {
+			if c.FieldMask&(1<<j) != 0 {
+				sp := &Prov{ID: len(s.Provs), Kind: PStruct, Results: []int{hids[j]}}
+				s.Provs = append(s.Provs, sp)
+				items = append(items, Item{Prov: sp.ID})
+			}
 		}
 		// declaration order: root first or last, alternating
 		if ci%2 == 1 {
@@ -116,6 +138,9 @@ func EnumSpec(name string, cases []EnumCase, r *rand.Rand, errP float64) *Spec {
 		d := ""
 		if c.Desc {
 			d = "d"
+		}
+		if c.FieldMask != 0 {
+			d += fmt.Sprintf("f%d", c.FieldMask)
 		}
 		s.Injectors = append(s.Injectors, &Injector{Name: fmt.Sprintf("Enum%d_%d_%d%s_%d", c.N, c.Shape, c.Mask, d, ci), Ret: tids[c.N-1], Items: items})
 	}
@@ -146,6 +171,24 @@ func SampleCases(cases []EnumCase, k int, seed int64) []EnumCase {
 	var out []EnumCase
 	for _, i := range idx[:k] {
 		out = append(out, cases[i])
+	}
+	return out
+}
+
+// WithFieldVariants adds, for a deterministic third of the cases, a variant
+// in which a random non-empty subset of the non-root nodes hand their value
+// on through an expanded struct field.
+func WithFieldVariants(cases []EnumCase, seed int64) []EnumCase {
+	r := rand.New(rand.NewSource(seed))
+	out := append([]EnumCase{}, cases...)
+	for _, c := range cases {
+		if c.N < 2 || r.Intn(3) != 0 {
+			continue
+		}
+		m := 1 + r.Intn((1<<(c.N-1))-1)
+		v := c
+		v.FieldMask = m
+		out = append(out, v)
 	}
 	return out
 }
